@@ -205,6 +205,15 @@ func (eng *Engine) scanCall(fn *ssa.Function, ci ssa.CallInstruction, e *Effects
 // mapCallee maps the callee's effects into the caller's terms.
 func (eng *Engine) mapCallee(callee *ssa.Function, args []ssa.Value, bindings []ssa.Value, e *Effects) {
 	e.Calls[callee] = true
+	if len(callee.Blocks) == 0 || !eng.inModule(callee) {
+		e.Extern[callee.String()] = true
+		for _, a := range args {
+			if _, ok := a.Type().Underlying().(*types.Pointer); ok {
+				e.addRoot(rootOf(a))
+			}
+		}
+		return
+	}
 	ce := eng.effectsOf(callee)
 	if len(callee.Blocks) == 0 {
 		e.Extern[callee.String()] = true
